@@ -45,6 +45,11 @@ def stepLine (s : DS) (line : String) : DS × String :=
       let (p, o) := stepP s.kind s.p key (.complete ⟨kl, dr, c⟩)
       ({ s with p }, render o)
     | _, _, _, _ => (s, "bad-op")
+  | ["x", key, kl, gn] => match key.toNat?, boolOf kl, boolOf gn with
+    | some key, some kl, some gn =>
+      let (p, o) := stepP s.kind s.p key (.close kl gn)
+      ({ s with p }, render o)
+    | _, _, _ => (s, "bad-op")
   | ["areset"] => ({ s with a := {} }, "ok")
   | ["hook", b] => match boolOf b with
     | some b => let a := stepA s.a (.hook b); ({ s with a }, renderA a)
